@@ -53,6 +53,7 @@ class AcceptExtract(guards.Extract):
         self.visiting = set()
         self.body = body
         self.accept = []
+        self.stores = []     # (path condition, what the Ok value is built from)
         self.unknown = 0
         self.ctx = TRUE      # condition of the enclosing statements (kept out of the local pc to avoid blow-up)
         out = body.get("output") or ""
@@ -82,11 +83,33 @@ class AcceptExtract(guards.Extract):
             v = lit_val(i) if isinstance(i, dict) else None
             if isinstance(v, int):
                 return "%s[%d]" % (b, v)
-            it = self.value_text(i, env) if isinstance(i, dict) else "?"
+            it = self.range_text(i, env) if isinstance(i, dict) else "?"
             return "%s[%s]" % (b, it)
         if isinstance(n0, dict) and n0.get("k") == "try":
             return None
         return None
+
+    def range_text(self, i, env):
+        if isinstance(i, dict) and i.get("k") == "struct" and "ops::Range" in (i.get("path") or i.get("t") or ""):
+            fs = {f["name"]: self.value_text(f["e"], env) for f in i.get("fields") or []}
+            p = (i.get("path") or "").rsplit("::", 1)[-1]
+            st = fs.get("start", "")
+            st = "" if st == "0" else st
+            if p == "RangeInclusive":
+                return "%s..=%s" % (st, fs.get("end", ""))
+            return "%s..%s" % (st, fs.get("end", ""))
+        return self.value_text(i, env)
+
+    def call_name(self, x):
+        f = callee(x)
+        name = f.rsplit("::", 1)[-1]
+        if (x.get("f") or "").endswith(("SwiftField::parse", "SwiftField::parse_with_variant", "SwiftField::to_swift_string")):
+            ty = (x.get("ga") or ["?"])[0]
+            m = re.match(r"^<(.*) as traits::SwiftField>::", x.get("inst") or "")
+            if m:
+                ty = m.group(1)
+            name = "%s::%s" % (ty.rsplit("::", 1)[-1], name)
+        return name
 
     def value_text(self, n, env):
         pl = self.place(n, env)
@@ -112,8 +135,7 @@ class AcceptExtract(guards.Extract):
             gtxt = "::<%s>" % ",".join(g.rsplit("::", 1)[-1] for g in ga) if ga and x["m"] in ("downcast_ref", "parse", "collect", "downcast") else ""
             return "%s.%s%s(%s)" % (self.value_text(x["recv"], env), x["m"], gtxt, args)
         if k == "call":
-            f = (x.get("f") or "?").rsplit("::", 1)[-1]
-            return "%s(%s)" % (f, ",".join(self.value_text(a, env) for a in x.get("args") or []))
+            return "%s(%s)" % (self.call_name(x), ",".join(self.value_text(a, env) for a in x.get("args") or []))
         if k == "bin":
             return "(%s%s%s)" % (self.value_text(x["l"], env), x["op"], self.value_text(x["r"], env))
         if k == "un":
@@ -123,7 +145,7 @@ class AcceptExtract(guards.Extract):
         if k == "struct":
             return guards.text(x)
         if k == "index":
-            return "%s[%s]" % (self.value_text(x["e"], env), self.value_text(x["i"], env) if x["i"].get("k") != "struct" else guards.text(x["i"]))
+            return "%s[%s]" % (self.value_text(x["e"], env), self.range_text(x["i"], env))
         if k == "tup":
             return "(%s)" % ",".join(self.value_text(e, env) for e in x["es"])
         if k == "if":
@@ -308,6 +330,7 @@ class AcceptExtract(guards.Extract):
             return
         if self.is_ok(x):
             self.accept.append(f_and(self.ctx, f_and(pc, self.try_atoms(x, env))))
+            self.stores.append((f_and(self.ctx, pc), self.store_repr((x.get("args") or [None])[0], env)))
             return
         k = x.get("k")
         if k == "if":
@@ -332,6 +355,24 @@ class AcceptExtract(guards.Extract):
             return
         # a fallible expression returned as is: accepted iff it succeeds
         self.accept.append(f_and(self.ctx, f_and(pc, f_and(self.try_atoms(x, env), self.ok_atom(x, env)))))
+
+    def store_repr(self, e, env, depth=0):
+        """canonical description of the value an Ok exit delivers: struct fields / variant payloads as value texts"""
+        x = peel(e) if e is not None else None
+        if not isinstance(x, dict):
+            return "?"
+        if x.get("k") == "call" and x.get("ctor") and depth < 3:
+            name = (x.get("f") or "").rsplit("::", 1)[-1]
+            return "%s(%s)" % (name, ",".join(self.store_repr(a, env, depth + 1) for a in x.get("args") or []))
+        if x.get("k") == "struct":
+            name = (x.get("path") or x.get("t") or "").rsplit("::", 1)[-1]
+            parts = []
+            for f in sorted(x.get("fields") or [], key=lambda f: f["name"]):
+                parts.append("%s=%s" % (f["name"], self.value_text(f["e"], env)))
+            return "%s{%s}" % (name, "; ".join(parts))
+        if x.get("k") == "tup":
+            return "(%s)" % ",".join(self.store_repr(a, env, depth + 1) for a in x["es"])
+        return self.value_text(x, env)
 
     def tail(self, n, pc, env):
         if n is None:
@@ -694,4 +735,64 @@ def u6(rep, F, flt=None):
             rep.add(Finding("U6", path, "accept-changed",
                             "%s: accept condition differs in shape from the reference and is too large to compare "
                             "exhaustively (%s)" % (path, wit), b["file"], b["line"]))
+    return r
+
+
+# ---------------------------------------------------------------------------
+# U7: what an accepting exit stores
+
+STORES = os.path.join(os.path.dirname(SPEC), "store_maps.json")
+
+
+def store_signature(ex):
+    out = []
+    for pc, rep_ in ex.stores:
+        c = guards.canon(pc) if len(atoms_of(pc)) <= 10 else structural(pc)
+        out.append("%s => %s" % (c, rep_))
+    return sorted(set(out))
+
+
+def extract_stores(F):
+    res = {}
+    for b in targets(F):
+        if (b.get("output") or "") == "bool":
+            continue
+        ex = AcceptExtract(F, b)
+        try:
+            ex.run_accept()
+        except RecursionError:
+            continue
+        if ex.stores:
+            res[b["path"]] = (store_signature(ex), b)
+    return res
+
+
+def u7(rep, F, flt=None):
+    r = rep.rule("U7", "stored value = reviewed reference: at every accepting exit of a parser the value it delivers "
+                       "(each struct component / variant payload as an expression over the input: which slice, "
+                       "which split part, which validator result) is the one of the reference", floor=100)
+    if not os.path.exists(STORES):
+        rep.fail_closed("U7: spec/store_maps.json missing")
+        return r
+    spec = json.load(open(STORES))["functions"]
+    cur = extract_stores(F)
+    rx = FILTERS.get(flt)
+    if flt == "fields":
+        rx = re.compile(r"^(<fields::|fields::)")
+    if flt:
+        r["floor"] = {"fields": 100, "headers": 3, "parser": 5, "date": 15, "amount": 20}.get(flt, 1)
+    for path in sorted(set(spec) | set(cur)):
+        if rx is not None and not rx.search(path):
+            continue
+        r["instances"] += 1
+        if path not in cur or path not in spec:
+            continue
+        sig, b = cur[path]
+        if sig != spec[path]:
+            a = [x for x in sig if x not in spec[path]]
+            o = [x for x in spec[path] if x not in sig]
+            rep.add(Finding("U7", path, "store-changed",
+                            "%s now delivers a different value than the reference: current `%s` vs reference `%s`"
+                            % (path, (a[0].split(" => ", 1)[-1] if a else "-")[:300], (o[0].split(" => ", 1)[-1] if o else "-")[:300]),
+                            b["file"], b["line"]))
     return r
